@@ -224,7 +224,7 @@ func c02Spaced(r *rand.Rand, text string) string {
 	return sb.String()
 }
 
-const c02Rule = "conflict-free random CFGs turned into an annotated SOURCE grammar (c02src.go): rule-level arrows on most rules, groups `( … -> T)` nested up to depth 2 and optionally `?`, arrows around parts that can be syntactically absent, nested choices with arrows on alternatives and on the choice, lists `x+ x* (x -> E)+ ((x -> E) separator 'c')* (x y -> E)+` with an arrow on the element and/or `(list -> L)` on the whole list, two or more lists over the SAME element with the same quantifier/separator that differ only in their arrow, node names reused at two places, state markers (mostly at the very end of a rule, behind nullable nonterminals/star lists), nullable nonterminals inside and at the ends of annotated parts, value types `{int}`/`{string}`/`{[]int}`/… on most terminals and on the nonterminals that are not inputs in three quarters of the grammars (2-3 types per grammar, so a rule's first symbol has the type of its left-hand side in some rules and another one in others: the compiler's default cast-action pass runs next to nested arrows), end-of-rule action code `{ $$ = … }` on about one rule in eight, 1-3 inputs incl. `no-eoi` ones (a quarter of the grammars have ONLY a no-eoi input, others have node names reachable only from a no-eoi input); whitespace between tokens and fixWhitespace on/off; the real toolchain compiles the rendered .tm and generates the parsers. For all strings up to length 3, random sentences of the source grammar and mutations: (A) generated parser's listener stream vs the Lean runtime model and vs the stack-free specification Events.eventsOf on the compiled rules (Lean answers SPEC-MISMATCH when they differ; the per-rule trim flag handed to Lean comes from an own nullable analysis, not from Grammar.HasTrailingNulls); (B) SOURCE-LEVEL ORACLE, independent of everything the compiler produced: brute-force derivation counting of the token string against the source grammar (skip if not a sentence or ambiguous; no-eoi inputs: the unique prefix that is a sentence), then the expected events by this rule: every arrow whose part is present yields one node (an absent `?` part yields none; an arrow AROUND an absent optional yields an empty node); range start = offset of the first token of the part; range end = end of its last token, except that a part whose derivation ENDS in an empty nonterminal or empty star list extends to the offset of the following token when fixWhitespace is off (never with fixWhitespace); a part deriving the empty string sits at the following token (start = end = its offset, the text length at end of input); delivery order: nodes of nested nonterminals and list iterations in text order as they complete, then the inline arrows of the enclosing rule (or list iteration) inner before outer and left to right, the rule's own arrow last. The generated parser's stream (type NAMES) must equal the oracle's events on every such sentence. non-trivial = accepted input whose stream contains a nested (non rule-level) node; distinct by (grammar, input)"
+const c02Rule = "conflict-free random CFGs turned into an annotated SOURCE grammar (c02src.go): rule-level arrows on most rules, groups `( … -> T)` nested up to depth 2 and optionally `?`, arrows around parts that can be syntactically absent, nested choices with arrows on alternatives and on the choice, lists `x+ x* (x -> E)+ ((x -> E) separator 'c')* (x y -> E)+` with an arrow on the element and/or `(list -> L)` on the whole list, two or more lists over the SAME element with the same quantifier/separator that differ only in their arrow, node names reused at two places, state markers (mostly at the very end of a rule, behind nullable nonterminals/star lists), nullable nonterminals inside and at the ends of annotated parts, value types `{int}`/`{string}`/`{[]int}`/… on most terminals and on the nonterminals that are not inputs in three quarters of the grammars (2-3 types per grammar, so a rule's first symbol has the type of its left-hand side in some rules and another one in others: the compiler's default cast-action pass runs next to nested arrows), end-of-rule action code `{ $$ = … }` on about one rule in eight, nonterminal-level arrows `N -> D : …` on some definitions/extend clauses with most alternatives of that clause left without an arrow of their own (they inherit D, the BARE empty alternative - written `%empty` or as nothing - included; an own arrow overrides D), the alternatives of some nonterminals split into the definition and one or two `extend N : …;` clauses rendered further down (preferably so that one clause is a single bare empty alternative; the oracle takes the union), a `number` nonterminal with single-terminal alternatives over two dedicated terminals carrying DIFFERENT rule-level arrows, typed so that the alternatives share one default cast action, `minimizeDFA = true` on a third of the typed grammars, 1-3 inputs incl. `no-eoi` ones (a quarter of the grammars have ONLY a no-eoi input, others have node names reachable only from a no-eoi input); whitespace between tokens and fixWhitespace on/off; the real toolchain compiles the rendered .tm and generates the parsers. For all strings up to length 3, random sentences of the source grammar and mutations: (A) generated parser's listener stream vs the Lean runtime model and vs the stack-free specification Events.eventsOf on the compiled rules (Lean answers SPEC-MISMATCH when they differ; the per-rule trim flag handed to Lean comes from an own nullable analysis, not from Grammar.HasTrailingNulls); (B) SOURCE-LEVEL ORACLE, independent of everything the compiler produced: brute-force derivation counting of the token string against the source grammar (skip if not a sentence or ambiguous; no-eoi inputs: the unique prefix that is a sentence), then the expected events by this rule: every arrow whose part is present yields one node (an absent `?` part yields none; an arrow AROUND an absent optional yields an empty node); range start = offset of the first token of the part; range end = end of its last token, except that a part whose derivation ENDS in an empty nonterminal or empty star list extends to the offset of the following token when fixWhitespace is off (never with fixWhitespace); a part deriving the empty string sits at the following token (start = end = its offset, the text length at end of input); delivery order: nodes of nested nonterminals and list iterations in text order as they complete, then the inline arrows of the enclosing rule (or list iteration) inner before outer and left to right, the rule's own arrow last. The generated parser's stream (type NAMES) must equal the oracle's events on every such sentence. non-trivial = accepted input whose stream contains a nested (non rule-level) node; distinct by (grammar, input)"
 
 func c02(c *Ctx) {
 	c.Rule = c02Rule
@@ -255,6 +255,7 @@ func c02(c *Ctx) {
 				o.Space = true
 			}
 			o.FixWhitespace = o.Space && c.Rng.Intn(5) < 3
+			minimize := c.Rng.Intn(3) == 0
 			name := fmt.Sprintf("e%d", done+k)
 			var sg *SGram
 			var gp *GenParser
@@ -265,6 +266,7 @@ func c02(c *Ctx) {
 				} else {
 					sg, feats = decorateSrc(c.Rng, g, o.FixWhitespace)
 				}
+				o.Minimize = sg.Types != nil && minimize
 				gp = compileTM(name, sg.TM(name, o), o)
 				if gp.Err == nil {
 					break
@@ -279,6 +281,12 @@ func c02(c *Ctx) {
 			}
 			if o.FixWhitespace {
 				c.Count("grammar with fixWhitespace")
+			}
+			if o.Minimize {
+				c.Count("grammar with minimizeDFA")
+				if feats["typed number nonterminal sharing one cast action"] {
+					c.Count("grammar with minimizeDFA and a typed number nonterminal sharing one cast action")
+				}
 			}
 			if o.FixWhitespace && feats["marker behind a nullable tail"] {
 				c.Count("grammar with fixWhitespace and a marker behind a nullable tail")
